@@ -513,6 +513,40 @@ def run_case(case):
                         bump("E.explained_by_rounding_box")
                 if (excess > 0).any() and not explained:
                     res["violations"].append({"what": f"OT-SVG gradient under nested transforms: colour parameter differs from the paint tree's (dt {dev:.3g}, allowed {allow:.3g})", "incoming_transform": list(T0), "nested": [list(x) for x in chainT], "upem_to_vbox": list(tuple(U)), "defs": dtxt[:700], "t_ref": [float(x) for x in t_ref], "t_got": [float(x) for x in t_got]})
+        # (E2) two gradients with the same circles and stops but different residual (non-uniform) transforms, written into
+        # one document through one reuse cache: each element must get the gradient its own paint tree describes
+        for n in range(PER // 16):
+            rr = r.uniform(100, 400)
+            c1 = Point(r.uniform(200, 800), r.uniform(200, 800))
+            stops = (pm.ColorStop(0.0, Color(255, 0, 0, 1.0)), pm.ColorStop(1.0, Color(0, 0, 255, 1.0)))
+            g = pm.PaintRadialGradient(stops=stops, c0=c1, c1=c1, r0=0, r1=rr)
+            k_ = r.choice([0.4, 0.5, 0.6, 0.75])
+            residuals = [(1, 0, 0, k_, 0, 0), (k_, 0, 0, 1, 0, 0)]
+            if r.random() < 0.5:
+                residuals.reverse()
+            U = Affine2D(0.1, 0, 0, -0.1, 0, 0)  # no translation: both residuals keep the circles where they are
+            defs = etree.Element("defs")
+            cache = svgmod.ReuseCache(0.1, GlyphReuseCache(0.1))
+            gs_probes = np.array([[c1.x + 0.3 * rr, c1.y], [c1.x, c1.y - 0.6 * rr], [c1.x + 0.5 * rr, c1.y + 0.5 * rr]], float)
+            t_ref = radial_t(tuple(g.c0), g.r0, tuple(g.c1), g.r1, gs_probes)
+            for which, tt in enumerate(residuals):
+                el = etree.Element("path")
+                try:
+                    svgmod._apply_paint(defs, el, pm.PaintTransform(transform=tuple(tt), paint=g), U, cache, Affine2D.identity())
+                except Exception:
+                    bump("E.apply_paint_raised")
+                    break
+                Mtot = aff(tuple(U)) @ aff(tt)
+                vb_probes = (Mtot @ np.c_[gs_probes, np.ones(len(gs_probes))].T).T[:, :2]
+                ns = 'xmlns="http://www.w3.org/2000/svg" xmlns:xlink="http://www.w3.org/1999/xlink"'
+                dtxt = etree.tostring(defs).decode()
+                doc = f'<svg {ns} viewBox="0 0 100 100">{dtxt}<path d="M0,0 L1,0 L1,1 Z" fill="{el.get("fill")}"/></svg>'
+                pnt = svgeval.display_list(doc, np.eye(3), svg_quantum=1e-3)[0].paint
+                t_got = pnt.tvals(vb_probes)
+                bump("E2.shared_cache_gradients_checked")
+                dev = float(np.nanmax(np.abs(t_ref - t_got)))
+                if dev > 0.02:
+                    res["violations"].append({"what": f"OT-SVG writer: element {which} of two sharing one gradient cache is filled with a gradient that is not its own (dt {dev:.3g})", "residuals": residuals, "defs": dtxt[:700], "fill": el.get("fill")})
     except ImportError as e:
         bump("E.unavailable")
 
@@ -559,7 +593,7 @@ def run_case(case):
 def finish(agg):
     c = agg["counters"]
     inc = []
-    need = ["A.emitted.PaintTranslate", "A.emitted.PaintScale", "A.emitted.PaintScaleUniform", "A.emitted.PaintScaleAroundCenter", "A.emitted.PaintScaleUniformAroundCenter", "A.emitted.PaintTransform", "A.compile_refused", "B.overflow_raised", "B.t_checked", "C.decompositions", "D.from_ot_checked", "E.svg_gradients_checked", "E.depth.2", "F.builds_through_overflow_fallback", "H1.transformed", "H7.PaintRadialGradient", "repo_tests.H1.transformed"]
+    need = ["A.emitted.PaintTranslate", "A.emitted.PaintScale", "A.emitted.PaintScaleUniform", "A.emitted.PaintScaleAroundCenter", "A.emitted.PaintScaleUniformAroundCenter", "A.emitted.PaintTransform", "A.compile_refused", "B.overflow_raised", "B.t_checked", "C.decompositions", "D.from_ot_checked", "E.svg_gradients_checked", "E.depth.2", "E2.shared_cache_gradients_checked", "F.builds_through_overflow_fallback", "H1.transformed", "H7.PaintRadialGradient", "repo_tests.H1.transformed"]
     for k in need:
         if c.get(k, 0) == 0:
             inc.append(f"deciding monitor/branch never reached: {k}")
